@@ -482,7 +482,7 @@ func runStreams(prop, tier string, seed int64, streams []Stream, budget int, cor
 			verdicts[vk]++
 			if verdicts[vk] <= 8 && len(res.Findings) < 200 {
 				sh := s
-				if verdicts[vk] <= 3 {
+				if verdicts[vk] <= 3 && os.Getenv("VERIF_NOSHRINK") == "" {
 					sh = shrink(s, kind)
 				}
 				si := runImpl(&sh)
